@@ -25,8 +25,11 @@
       Proofs/RtPos.lean; the saved offsets of the written-back fields, Proofs/Saved.lean).  Hypotheses: `CfgOK`
       (executable as `cfgOKb`, evaluated by the check on every real configuration it uses), the property's own
       precondition (buffer ≥ header + context), and the `uint32_t` no-wrap conditions.
-  Not proved: platforms that install buffers of *different* sizes (there the position invariant is false after a buffer
-  swap that follows an ignored closing — finding F9); packets of 512 MiB and more (candidate finding F11).  On the
+    * **no_store_outside_the_buffer_any_sizes** — the same for platforms that install buffers of *different* sizes, for
+      histories that start by opening a packet and never disable tracing (Proofs/RtPosB.lean).
+  Not proved, because false on the current tree: buffers of different sizes together with disabled tracing (a closing
+  the tracer ignores, then a swap to a smaller buffer, leaves `at` beyond the packet — finding F9) or with tracing calls
+  before the first opening (misuse); packets of 512 MiB and more (candidate finding F11).  On the
   implementation the property is decided on every history by the guard page (byte-granular), the C assertion and
   sanitizers.
 -/
@@ -35,6 +38,7 @@ import BVM.Proofs.RtSimp
 import BVM.Proofs.SizeSer
 import BVM.Proofs.RecordBounds
 import BVM.Proofs.CfgOKb
+import BVM.Proofs.RtPosB
 namespace BVM
 
 theorem stores_are_logged_truthfully (env : SerEnv) (sc : Scalar) (oib : Option Nat) (v : Int) (s : SerSt) :
@@ -172,6 +176,29 @@ theorem no_store_outside_the_buffer_exec (cfg : Cfg) (d : DST) (L A : Nat) (hcfg
   (no_store_outside_the_buffer cfg d L A (cfgOKb_sound A cfg d hcfg) hsmall p hsb
     (hdrFitsb_sound cfg d L p.openArgs hhdr) ops hops).1
 
+/-- **the same for platforms that install buffers of different sizes** (`barectf_packet_set_buf` from the close
+    callback): every buffer — the initial one and each one installed later — is at most `Lmax` bytes and holds packet
+    header + context (`GoodBuf`: the property's precondition); the history starts by opening a packet (what every
+    documented platform does in its initialisation) and never disables tracing, and no callback toggles
+    `is_tracing_enabled`.  Then no store is outside the current buffer, the packet size is the current buffer's size,
+    `at` is inside the packet, an open packet has `off_content ≤ at`, and a closed packet has `at = packet_size` (so the
+    next tracing call sees a full packet, asks the back end and opens a new one).
+    The two restrictions are where the statement is false on the current tree: a closing ignored because tracing is
+    disabled followed by a swap to a smaller buffer (finding F9); a tracing call before any opening followed by a swap. -/
+theorem no_store_outside_the_buffer_any_sizes (cfg : Cfg) (d : DST) (A Lmax : Nat) (hcfg : CfgOK A cfg d)
+    (hsmall : 8 * Lmax + A ≤ 2 ^ 32) (L : Nat) (p : Plat) (hL : GoodBuf cfg d A Lmax p.openArgs L)
+    (htg : p.toggles = []) (hsb : ∀ x ∈ p.setBufs, GoodBuf cfg d A Lmax p.openArgs x.2)
+    (ops : List Op) (hops : OpsSmall d Lmax A ops) (hen : NeverDisabled ops) :
+    (runOps cfg d (.open_ :: ops) (rtInit L p)).halted = false ∧
+    (runOps cfg d (.open_ :: ops) (rtInit L p)).c.packetSize = 8 * (runOps cfg d (.open_ :: ops) (rtInit L p)).buf.length ∧
+    (runOps cfg d (.open_ :: ops) (rtInit L p)).c.at_ ≤ (runOps cfg d (.open_ :: ops) (rtInit L p)).c.packetSize ∧
+    ((runOps cfg d (.open_ :: ops) (rtInit L p)).c.packetIsOpen = true →
+      (runOps cfg d (.open_ :: ops) (rtInit L p)).c.offContent ≤ (runOps cfg d (.open_ :: ops) (rtInit L p)).c.at_) ∧
+    ((runOps cfg d (.open_ :: ops) (rtInit L p)).c.packetIsOpen = false →
+      (runOps cfg d (.open_ :: ops) (rtInit L p)).c.at_ = (runOps cfg d (.open_ :: ops) (rtInit L p)).c.packetSize) := by
+  have h := runOps_from_init cfg d A Lmax hcfg hsmall L p hL htg hsb ops hops hen
+  exact ⟨h.nh, h.pkt, by rw [h.pkt]; exact h.at_, h.oc, fun hc => by rw [h.pkt]; exact h.cl rfl hc⟩
+
 /-- while a packet is open, the offsets saved for the closing function's write-backs are inside the buffer -/
 theorem saved_offsets_inside_the_buffer (cfg : Cfg) (d : DST) (L A : Nat) (hcfg : CfgOK A cfg d)
     (hsmall : 8 * L + A ≤ 2 ^ 32) (p : Plat) (hsb : ∀ x ∈ p.setBufs, x.2 = L)
@@ -229,6 +256,12 @@ example : OpsSmall c02Dst 16 8 c02Ops := by
   revert a
   decide +kernel
 example : (runOps c02Cfg c02Dst c02Ops (rtInit 16 { fullAnswers := [false, true] })).halted = false := by decide +kernel
+/-- two buffer sizes (16 bytes, then 12 after the first closing), back end full once: the hypotheses are met -/
+example : GoodBuf c02Cfg c02Dst 8 16 [] 16 ∧ GoodBuf c02Cfg c02Dst 8 16 [] 12 :=
+  ⟨⟨by decide, by intro a ha; simp [openArgsOf] at ha; subst ha; decide +kernel⟩,
+   ⟨by decide, by intro a ha; simp [openArgsOf] at ha; subst ha; decide +kernel⟩⟩
+example : (runOps c02Cfg c02Dst (.open_ :: [.trace "e" c02Args, .close, .trace "e" c02Args, .trace "e" c02Args, .fin])
+    (rtInit 16 { fullAnswers := [false, true], setBufs := [(0, 12)] })).halted = false := by decide +kernel
 
 #print axioms stores_are_logged_truthfully
 #print axioms string_store_logged_truthfully
@@ -245,5 +278,6 @@ example : (runOps c02Cfg c02Dst c02Ops (rtInit 16 { fullAnswers := [false, true]
 #print axioms tracing_call_writes_inside_the_packet
 #print axioms no_store_outside_the_buffer
 #print axioms no_store_outside_the_buffer_exec
+#print axioms no_store_outside_the_buffer_any_sizes
 #print axioms saved_offsets_inside_the_buffer
 end BVM
